@@ -173,6 +173,10 @@ class Fill(CellModifierInput):
             for val, limit_holder in zip(
                 (min_val, max_val), (self._min_index, self._max_index)
             ):
+                if not isinstance(val, syntax_node.ValueNode) or val.value is None:
+                    raise ValueError(
+                        f"The lattice limits must be an integer. {val} was given"
+                    )
                 try:
                     val._convert_to_int()
                     limit_holder[axis] = val.value
@@ -192,6 +196,10 @@ class Fill(CellModifierInput):
             for j in self._axis_range(1):
                 for k in self._axis_range(2):
                     val = next(words)
+                    if not isinstance(val, syntax_node.ValueNode) or val.value is None:
+                        raise ValueError(
+                            f"Values provided must be valid universes. {val} given."
+                        )
                     try:
                         val._convert_to_int()
                         assert val.value >= 0
